@@ -9,7 +9,7 @@ import gc
 from sim import devices
 from sim.canon import (Log, snapshot, canon_row, canon_cell, dec_table,
                        enc_table)
-from sim.catalogue import RECIPES, NAMES
+from sim.catalogue import RECIPES, NAMES, cut_after_conflicts
 from sim.core import outcome, draw_config, not_a_harness_bug
 from sim.gen import gen_table, gen_sorted_table
 from sim.loader import load_petl
@@ -86,6 +86,9 @@ def gen_case(rng, tier, g):
         for _ in range(rng.choice([1, 1, 2])):
             n2 = rng.choice(STACKABLE)
             stack.append([n2, rng.randrange(len(RECIPES[n2].variants))])
+    # (Conflict sets: their text form depends on the interpreter's hash
+    # seed; nothing is built on them)
+    cut_after_conflicts(stack)
     nf = rng.randint(3, 5) if (rec.rect or rng.random() < 0.6) else None
     tables = []
     for _ in range(rec.nsrc):
